@@ -330,6 +330,16 @@ func (f *Frame) loopEnv(li *loopInfo, st *State, phiVals map[*ssa.Phi]Term) map[
 		env[name] = Val{T: t, Go: phi.Type()}
 	}
 	env["$own"] = Val{} // marker: inside old(), parameter names denote entry values
+	// the map range this loop steps through (for seen / seenset)
+	for _, ins := range li.header.Instrs {
+		if nx, ok := ins.(*ssa.Next); ok {
+			if rg, ok := nx.Iter.(*ssa.Range); ok {
+				if key, ok := f.ranges[rg]; ok {
+					env["$seenkey"] = Val{T: Term{S: key}}
+				}
+			}
+		}
+	}
 	return env
 }
 
@@ -472,6 +482,9 @@ func (f *Frame) loopCut(li *loopInfo, cur *State) {
 	un.setH(cur, "$next", newNext)
 	un.assume(cur, Ge(newNext, oldNext))
 	mods := un.eng.loopMods(f, li)
+	if os.Getenv("WV_DEBUG") != "" {
+		fmt.Fprintf(os.Stderr, "loop %s mods: %v\n", f.loopName(li), sortedBoolKeys(mods))
+	}
 	if mods["*"] {
 		un.havocAll(cur)
 		un.note("loop " + f.loopName(li) + " havocs the whole heap (body calls a function with unknown effects)")
